@@ -43,6 +43,7 @@ const (
 	ErrDotOperatorNotSupported = "the dot operator is not supported for type '%s'"
 	ErrPropertyNotFound        = "property '%s' not found in type '%s'"
 	ErrDivisionByZero          = "division by zero error. The right-hand side of the division operator must not be zero"
+	ErrEachExpectsArray        = "the '@each' directive can only loop over type 'ARRAY', got '%s' instead"
 
 	// Functions
 	ErrNoFuncForThisType  = "function '%s' doesn't exist for type '%s'"
